@@ -93,7 +93,11 @@ CHECKS["C02"] = dict(
    text=("PARTIAL.  Theorems (Props/C02.v, closed): for any duplicate-free list L of exactly the members, check_enum member |L| out = true <-> "
          "Permutation out L <-> (NoDup out and In p out <-> member p) (C02_checker_sound_complete, C02_checker_exactly_once).  Each run builds grammars "
          "and weights with the real code, runs heap / bucket / bee / beap / constant-delay search to exhaustion under a time limit, and hands the "
-         "grammar's own rule table and the full output to the extracted checker; non-termination = time limit exceeded."),
+         "grammar's own rule table and the full output to the extracted checker; non-termination = time limit exceeded.  Algorithmic core "
+         "(Enum/Frontier.v, FrontierProofs.v, FrontierSched.v; an abstraction of the index-tuple expansion of bee/beap/constant-delay search, NOT tied to "
+         "the code by correspondence): unique parent, no duplicate push, breadth-first levels list every tuple once (C02_frontier_*), and for EVERY pop "
+         "order of the queue (frontier taken up to permutation, any number of steps): nothing pushed or popped twice, nothing lost, and an empty queue "
+         "means every tuple of the arity was popped exactly once (C02_frontier_any_order_no_duplicates / _nothing_lost / _exhaustive)."),
    note=ENUM_NOTE + "Known findings: heap/bucket search are incomplete on size-bounded (tree-traversing) grammars; bee search with non-uniform weights blows up exponentially (treated as practical non-termination, prefix still checked).",
    design="5/C02")
 CHECKS["C03"] = dict(
